@@ -322,6 +322,14 @@ theorem execStep_presQ (H : Hyp cfg sub sc R) (scope : Scope) (x : Ctx) (tr : TR
     refine ⟨fun s' h => ⟨?_, hq.1 s' h⟩, hq.2⟩
     exact H.hcl.execChange sub H.hsub scope x d tr { s4 with glog := l } s' calls hb hw hc (by rw [hs]; exact h)
 
+theorem nfinalStage_presQ (H : Hyp cfg sub sc R) (scope : Scope) (x : Ctx) (dest : Option SPath) (conf0 : Forest)
+    (s : NSt) (hb : Busy s) : Pres R Busy (nfinalStage sub sc cfg scope x dest conf0 s) s.view := by
+  rcases nfinalStage_cases sub sc cfg scope x dest conf0 s with h1 | ⟨cbs, h1⟩ | ⟨e, he, h1⟩ | h1 <;> rw [h1]
+  · exact Pres.ok (H.hcl.refl _) hb
+  · exact ncallbacks_presQ H _ x cbs s hb
+  · exact Pres.err (H.hcl.refl _) hb he
+  · exact Pres.oof
+
 theorem nexecute_presQ (H : Hyp cfg sub sc R) (scope : Scope) (x : Ctx) (tr : TRef) (t : NTrans)
     (s : NSt) (hw : cfg.root.walkTo scope.pre = some scope) (hb : Busy s) :
     Pres R Busy (nexecute sub sc cfg scope x tr t s) s.view := by
@@ -350,6 +358,8 @@ theorem nexecute_presQ (H : Hyp cfg sub sc R) (scope : Scope) (x : Ctx) (tr : TR
     have hstep := execStep_presQ H scope x tr t.dest s4 s3.glog calls hw b4 hg hc
     rw [hconf] at hstep
     refine Pres.bind hstep ?_
+    intro _ s5 _ f5 b5
+    refine Pres.weaken hcl f5 (Pres.bind (nfinalStage_presQ H scope x _ _ s5 b5) ?_)
     intro _ s5 _ f5 b5
     refine Pres.weaken hcl f5 (Pres.bind (ncallbacks_presQ H _ x _ s5 b5) ?_)
     intro _ s6 _ f6 b6
@@ -669,6 +679,23 @@ theorem nchangeState_ref (h : SubRef sub1 sub2) (scope : Scope) (x : Ctx) (dest 
   | oof => exact Ref.rfl
   | ok r => exact Ref.bind (exitAll_ref h x _ _) (fun _ s1 => enterAll_ref h x _ _)
 
+theorem nfinalStage_ref (h : SubRef sub1 sub2) (scope : Scope) (x : Ctx) (dest : Option SPath) (conf0 : Forest) (s : NSt) :
+    Ref (nfinalStage sub1 sc cfg scope x dest conf0 s) (nfinalStage sub2 sc cfg scope x dest conf0 s) := by
+  unfold nfinalStage
+  cases dest with
+  | none => exact Ref.rfl
+  | some d =>
+    simp only []
+    cases resolveTransition cfg.root scope conf0 d with
+    | err e => exact Ref.rfl
+    | oof => exact Ref.rfl
+    | ok r =>
+      simp only []
+      cases nfinalCheckRoot cfg r.tree (r.enters.map (·.path)) with
+      | ok cbs => exact ncallbacks_ref h _ x _ _
+      | err e => exact Ref.rfl
+      | oof => exact Ref.rfl
+
 theorem nexecute_ref (h : SubRef sub1 sub2) (scope : Scope) (x : Ctx) (tr : TRef) (t : NTrans) (s : NSt) :
     Ref (nexecute sub1 sc cfg scope x tr t s) (nexecute sub2 sc cfg scope x tr t s) := by
   unfold nexecute
@@ -689,6 +716,8 @@ theorem nexecute_ref (h : SubRef sub1 sub2) (scope : Scope) (x : Ctx) (tr : TRef
       | none => exact Ref.rfl
       | some d => exact nchangeState_ref h scope x d s4
     · intro _ s5
+      refine Ref.bind (nfinalStage_ref h scope x _ _ s5) ?_
+      intro _ s5
       refine Ref.bind (ncallbacks_ref h _ x _ _) ?_
       intro _ s6
       refine Ref.bind (ncallbacks_ref h _ x _ _) ?_
